@@ -1093,3 +1093,39 @@ func (w *World) BoundUDP(port int) bool {
 }
 
 var _ = errors.New
+
+// Datagram is a queued datagram as seen by an environment socket.
+type Datagram struct {
+	Data []byte
+	From *net.UDPAddr
+}
+
+// Drain removes and returns everything queued on an environment socket without blocking
+// (harness-only: used after the system went quiescent).
+func (u *UDPConn) Drain() []Datagram {
+	var out []Datagram
+	for _, d := range u.q {
+		from := &net.UDPAddr{IP: d.from.IP, Port: d.from.Port, Zone: d.from.Zone}
+		out = append(out, Datagram{Data: d.data, From: from})
+		u.Recv++
+	}
+	u.q = nil
+	return out
+}
+
+// SendRaw injects a datagram from this environment socket without a scheduling point.
+func (u *UDPConn) SendRaw(b []byte, to *net.UDPAddr) {
+	src := &net.UDPAddr{IP: u.local.IP, Port: u.local.Port, Zone: u.local.Zone}
+	u.Sent++
+	vrt.Log("udp.sendto", src.String(), to.String(), int64(len(b)))
+	dst := u.w.findUDP(to)
+	if dst == nil {
+		vrt.Log("udp.lost", src.String(), to.String(), int64(len(b)))
+		return
+	}
+	if len(dst.q) >= u.w.UDPQueue {
+		dst.Dropped++
+		return
+	}
+	dst.q = append(dst.q, dgram{data: append([]byte(nil), b...), from: src})
+}
